@@ -475,6 +475,14 @@ pub fn c04(tier: &str, seed: u64) -> i32 {
         if ctx.run.violations.is_empty() {
             crate::props_a::int_boundary_closures(&mut ctx, "C04", crate::engine_a::O_ITER, 0);
         }
+        if ctx.run.violations.is_empty() {
+            // a key record of more than 128 KiB (three-byte size field) with a short key behind it in the chain
+            let a = crate::props_a::Alpha { label: "a key of 140000 bytes and a short key x {8}", colliding: vec![140_000, 6], other: vec![], vals: vec![8] };
+            let mut cfg = crate::props_a::make_cfg("C04", KtId::Bytes, 8, &a, seed);
+            cfg.oracles = crate::engine_a::O_ITER;
+            let starts: Vec<crate::engine_a::Start> = crate::props_a::empty_start(&mut ctx, &cfg).into_iter().collect();
+            crate::props_a::run_closure(&mut ctx, "a colliding key of 140000 bytes and a short key x {8} [bytes]", &cfg, starts, 300, 8.0);
+        }
         {
             // one live handle, traversals at arbitrary positions of the history (not after every call):
             // three same-length keys in a one-bucket table, so that a freed record's offset is reused
